@@ -26,7 +26,7 @@ MANIFEST = {
     'technique': 'deductive: VCs from the real AST of the TrajectoryMetrics methods, relational/induction lemmas over the proved formulas; z3/cvc5; '
                  'native replay; random trajectories with scale factors as bounded stand-in',
 }
-UNITS = ['unit_formulas', 'unit_center_of_mass', 'unit_speed_freq', 'unit_std', 'unit_lemmas']
+UNITS = ['unit_formulas', 'unit_center_of_mass', 'unit_speed_freq', 'unit_std', 'unit_lemmas', 'unit_dependencies']
 BOUNDED = ['bounded_metrics']
 META = {'clauses': {'formulas': 'P', 'scaling': 'P (lemmas over the formulas) + A (periodogram homogeneity)', 'amplitudes partition': 'P (telescoping lemma) + B (real splitting loop)',
                     'identical motion => Haven 1': 'P (lemma) + B'},
@@ -352,6 +352,14 @@ def unit_lemmas(tier):
         return [('base', SWX(0) == x * SW(0)), ('step', SWX(k + 1) == x * SW(k + 1)), ('Haven ratio one for equal diffusivities', D / D == 1)]
     u.lemma('C14.haven.identical-motion(induction)', haven)
     return u
+
+
+def unit_dependencies(tier):
+    """distances_from_base_position / _lengths (Cartesian length through the metric tensor, C01) carry every diffusivity and amplitude:
+    their units are re-run here so that a change breaking them is reported under C14 too."""
+    from verif.props import c01
+    from verif.props.common import merge_units
+    return merge_units('C14.dependencies', [c01.unit_lengths(tier), c01.unit_distances(tier)])
 
 
 # ---------------------------------------------------------------------------------------------------------------
